@@ -2,7 +2,7 @@
 from gx.flow import Flow
 
 TECHNIQUE = "provenance rule (the base a relative entry is joined onto must be the directory whose alternates file was read) and guard cut-set for the cycle test"
-EXPLANATION = ("In gix_odb::alternate::resolve: the Path::join that turns a parsed alternates entry into a path must have, as its receiver, the "
+EXPLANATION = ("In gix_odb::alternate::resolve: the site that gives a parsed alternates entry its base (Path::join(base, entry), or realpath_opts(entry, base) on an entry not joined before) must take, as base, the "
                "same binding as the directory whose info/alternates file was read in that iteration; pushing a directory onto the work list is cut "
                "off from entry once the `not yet seen` edge of seen.contains(canonical) is removed, the canonical path tested is the realpath of "
                "the joined path, and the cycle branch builds Error::Cycle. Git's consultation order and quoting are not decided.")
@@ -23,15 +23,21 @@ def run(db, chk):
             if fl.derives_from_call(r.args[0], r"Path::join$"):
                 pass
         read_bases |= {x[1] for x in fl.roots(r.args[0]) if x[0] in ("var", "arg")}
-    entry_joins = [j for j in joins if fl.derives_from_call(j.args[1], r"alternate::parse::content$")]
-    chk.floor("join of a parsed entry", len(entry_joins), 1)
-    for j in entry_joins:
-        base = {x[1] for x in fl.roots(j.args[0]) if x[0] in ("var", "arg")}
+    # sites that give a parsed (possibly relative) entry its base: Path::join(base, entry), or realpath_opts(entry, base) on an entry not joined before
+    sites = [(j, j.args[0], "join") for j in joins if fl.derives_from_call(j.args[1], r"alternate::parse::content$")]
+    for c in f.calls_to(r"realpath_opts$"):
+        ejb = {j.block for j, _, _ in sites}
+        via = {r[2] for r in fl.roots(c.args[0], stop_named=False, stop_calls=r"Path::join$", sites=True) if r[0] == "call" and r[1].endswith("Path::join")}
+        if fl.derives_from_call(c.args[0], r"alternate::parse::content$") and not (via & ejb):
+            sites.append((c, c.args[1], "realpath_opts"))
+    chk.floor("sites resolving a parsed entry against a base directory", len(sites), 1)
+    for j, base_op, how in sites:
+        base = {x[1] for x in fl.roots(base_op) if x[0] in ("var", "arg")}
         names = sorted((f.local_name(b) or "arg%d" % b) for b in base)
         rnames = sorted((f.local_name(b) or "arg%d" % b) for b in read_bases)
-        chk.ob("relative-entry-joined-on-its-own-directory", "resolve: join(%s, entry)" % ",".join(names), bool(base) and base <= read_bases,
-               "entries are joined onto %s but the alternates file was read from %s" % (names, rnames), j.where(), key="same-base|resolve")
-        chk.sample({"join_base": names, "read_from": rnames})
+        chk.ob("relative-entry-joined-on-its-own-directory", "resolve: %s(%s, entry)" % (how, ",".join(names)), bool(base) and base <= read_bases,
+               "entries are resolved against %s but the alternates file was read from %s" % (names, rnames), j.where(), key="same-base|resolve")
+        chk.sample({"site": how, "base": names, "read_from": rnames})
     # cycle detection
     contains = [c for c in f.calls() if c.is_(r"::contains$")]
     pushes = [c for c in f.calls_to(r"Vec::<T, A>::push$|Vec::<T>::push$") if any(x[0] == "var" and f.local_name(x[1]) == "dirs" for x in fl.roots(c.args[0]))]
